@@ -72,7 +72,7 @@ def option_vector(rng, bias=None):
 def linear_system_program(rng):
     """linear loops whose characteristic polynomial has complex / irrational / zero / repeated roots, optionally
     extended by accumulators and counters (repeated root 1 next to the block's roots)"""
-    kind = rng.choice(["rotation", "fib", "nilpotent", "repeated", "random", "random", "tribonacci", "rot-scaled", "fib", "singular"])
+    kind = rng.choice(["rotation", "fib", "nilpotent", "repeated", "random", "random", "random", "tribonacci", "rot-scaled", "fib", "singular", "singular"])
     names = ["x", "y", "z"]
     if kind == "rotation":
         vs, M = names[:2], [[0, -1], [1, 0]]
@@ -89,7 +89,7 @@ def linear_system_program(rng):
     elif kind == "repeated":
         vs, M = names[:2], [[2, 1], [0, 2]]
     else:
-        k = rng.choice([2, 2, 3])
+        k = rng.choice([2, 2, 2, 2, 3])
         vs = names[:k]
         M = [[rng.choice([-2, -1, 0, 0, 1, 1, 2]) for _ in range(k)] for _ in range(k)]
     vals = [rng.choice([0, 1, 1, 2, -1]) for _ in vs]
@@ -349,6 +349,7 @@ def run_case(case, extra=None):
         "stats": stats,
         "n_ops": 2 * nops,
         "statuses": {s: statuses.count(s) for s in set(statuses)},
+        "had_timeout": any(r["status"] == "timeout" for r in wv["results"] + wd["results"]),
         "pairs": sorted(set(pairs)),
         "vectors": [json.dumps(vec, sort_keys=True)],
         "probes": {
